@@ -136,11 +136,15 @@ class RayFan:
                     self.optic.surface_group.intensity[-1, :]
 
         # remove distortion
+        # reference wavelength: the primary wavelength if it is among the
+        # analyzed wavelengths, otherwise the first analyzed wavelength
         wave_ref = self.optic.primary_wavelength
+        if wave_ref not in list(self.wavelengths):
+            wave_ref = self.wavelengths[0]
         for field in self.fields:
             x_offset = data[f'{field}'][f'{wave_ref}']['x'][self.num_points//2]
             y_offset = data[f'{field}'][f'{wave_ref}']['y'][self.num_points//2]
-            for wavelength in self.wavelengths:
+            for wavelength in dict.fromkeys(self.wavelengths):
                 data[f'{field}'][f'{wavelength}']['x'] -= x_offset
                 data[f'{field}'][f'{wavelength}']['y'] -= y_offset
 
